@@ -66,8 +66,20 @@ def gen_case(seed, tier):
     wl = stream(seed, "workload")
     fl = stream(seed, "faults")
     sc = stream(seed, "sched")
-    kind = cfg.choice(["ff", "ff", "async", "reset", "pulse", "pulse"])
+    kind = cfg.choice(["ff", "ff", "async", "reset", "pulse", "pulse", "pulse_tl"])
     stages = cfg.choice([2, 2, 3, 4, 5])
+    if kind == "pulse_tl":
+        # timeline mode: real clock processes with seeded integer-femtosecond periods / phases, testbenches awaiting ticks
+        per = [2, 4, 6, 10, 14, 20, 50, 100, 250]
+        pi, po = cfg.choice(per), cfg.choice(per)
+        phi = cfg.choice([None, 1, 2, pi // 2, pi, 3])
+        pho = cfg.choice([phi, None, 1, po // 2, po + 1, 5])
+        config = {"kind": kind, "stages": stages, "i_edge": cfg.choice(["pos", "neg"]), "o_edge": cfg.choice(["pos", "neg"]),
+                  "pi": pi, "po": po, "phi": phi, "pho": pho}
+        n = cfg.randint(2, 12) if tier == "quick" else cfg.randint(2, 40)
+        return {"config": config, "sched": {"mode": sc.choice(["seeded", "seeded", "reverse", "insertion"]),
+                                            "seed": sc.randrange(1 << 32)},
+                "steps": [{"gap": wl.choice([0, 0, 1, 2, wl.randint(0, 6)])} for _ in range(n)]}
     config = {"kind": kind, "stages": stages}
     nsteps = cfg.randint(30, 250) if tier == "quick" else cfg.randint(30, 1200)
     steps = []
@@ -148,7 +160,112 @@ def gen_case(seed, tier):
                                         "seed": sc.randrange(1 << 32)}, "steps": steps}
 
 
+def _first_edge(period, phase, edge):
+    ph = phase if phase is not None else period // 2
+    return ph + (0 if edge == "pos" else period // 2)
+
+
+def _next_edge_after(t, period, first):
+    if t < first:
+        return first
+    return first + ((t - first) // period + 1) * period
+
+
+def run_pulse_timeline(case):
+    """PulseSynchronizer under add_clock(): pulses spaced so that an output edge falls strictly between two of them."""
+    from amaranth.hdl import Period, Module, ClockDomain, Elaboratable
+    from amaranth.sim import Simulator
+    from amaranth.lib import cdc
+    from dsim.permset import scheduler
+    c = case["config"]
+    res = Result()
+    dig = Digest()
+    stats = {"steps": 0, "edges": 0, "sim_fs": 0, "faults": {"coincide": 0, "stall": 0, "ratio": 0, "glitch-in": 0, "inactive": 0},
+             "probes": {"out_changes": 0, "pulses": 0, "timeline_runs": 1, "back_to_back_pulses": 0}}
+    fi = _first_edge(c["pi"], c["phi"], c["i_edge"])
+    fo = _first_edge(c["po"], c["pho"], c["o_edge"])
+    if (fi - fo) % min(c["pi"], c["po"]) == 0:
+        stats["faults"]["coincide"] += 1
+    if max(c["pi"], c["po"]) >= 5 * min(c["pi"], c["po"]):
+        stats["faults"]["ratio"] += 1
+
+    def go():
+        with scheduler(case["sched"]["mode"], case["sched"]["seed"]) as S:
+            dut = cdc.PulseSynchronizer("i", "o", stages=c["stages"])
+
+            class Top(Elaboratable):
+                def elaborate(self, platform):
+                    m = Module()
+                    m.domains.i = ClockDomain(clk_edge=c["i_edge"], reset_less=True)
+                    m.domains.o = ClockDomain(clk_edge=c["o_edge"], reset_less=True)
+                    m.submodules.dut = dut
+                    return m
+            sim = Simulator(Top())
+            for dom, p, ph in (("i", c["pi"], c["phi"]), ("o", c["po"], c["pho"])):
+                kw = {"phase": Period(fs=ph)} if ph is not None else {}
+                sim.add_clock(Period(fs=p), domain=dom, **kw)
+            sent = [0]
+            seen = [0]
+            done = [False]
+
+            async def producer(ctx):
+                for st in case["steps"]:
+                    # next sampling edge of the input domain at which i = 1
+                    await ctx.tick("i")
+                    t_edge = ctx.elapsed_time().femtoseconds
+                    # make sure an output edge lies strictly between the previous pulse's sampling edge and this one's
+                    ctx.set(dut.i, 1)
+                    await ctx.tick("i")
+                    t_pulse = ctx.elapsed_time().femtoseconds
+                    ctx.set(dut.i, 0)
+                    sent[0] += 1
+                    stats["probes"]["pulses"] += 1
+                    # wait until some output edge has happened strictly after t_pulse, and strictly before the next
+                    # sampling edge (which is the second tick from now at the earliest)
+                    t_o = _next_edge_after(t_pulse, c["po"], fo)
+                    while True:
+                        nxt_sample = _next_edge_after(_next_edge_after(ctx.elapsed_time().femtoseconds, c["pi"], fi), c["pi"], fi)
+                        if t_o < nxt_sample:
+                            break
+                        await ctx.tick("i")
+                    for _ in range(st["gap"]):
+                        await ctx.tick("i")
+                    stats["steps"] += 1
+                # flush
+                for _ in range(c["stages"] + 3):
+                    await ctx.tick("o")
+                done[0] = True
+
+            async def counter(ctx):
+                last = 0
+                async for clk, rst, o in ctx.tick("o").sample(dut.o):
+                    if o:
+                        seen[0] += 1
+                        if last:
+                            stats["probes"]["back_to_back_pulses"] += 1
+                        stats["probes"]["out_changes"] += 1
+                    last = o
+                    dig.add((ctx.elapsed_time().femtoseconds, int(o)), state=False)
+                    if seen[0] > sent[0]:
+                        raise Violation("pulse_spurious", -1, {"out_cycles": seen[0], "in_pulses": sent[0],
+                                                               "t_fs": ctx.elapsed_time().femtoseconds})
+
+            sim.add_testbench(producer)
+            sim.add_testbench(counter, background=True)
+            sim.run()
+            # the counter observes o *before* each edge: one more output cycle to observe the last value
+            stats["sim_fs"] = sim._engine.now
+            stats["decisions"] = S.decisions
+            if seen[0] != sent[0]:
+                raise Violation("pulse_count", len(case["steps"]), {"out_cycles": seen[0], "in_pulses": sent[0],
+                                                                    "stages": c["stages"], "config": c})
+    run_guarded(res, go)
+    return finish(res, dig, stats, stats["probes"]["pulses"] > 0)
+
+
 def run_case(case):
+    if case["config"]["kind"] == "pulse_tl":
+        return run_pulse_timeline(case)
     from amaranth.hdl import Signal, Module
     from amaranth.lib import cdc
     config = case["config"]
@@ -380,6 +497,11 @@ def signature(case, violation):
 
 def simplify(case):
     c = case["config"]
+    if c["kind"] == "pulse_tl":
+        for k in ("phi", "pho"):
+            if c[k] is not None:
+                yield dict(case, config=dict(c, **{k: None}))
+        return
     if c["stages"] > 2:
         yield dict(case, config=dict(c, stages=2))
     if c["kind"] == "ff" and c["width"] > 1:
